@@ -667,6 +667,11 @@ let suite_lock (line : string) : string =
             | 'X' ->
                 let w', o = step0 !w (AClose (name_id body)) in
                 w := w'; show_out o
+            | 'Z' ->
+                (* close while the background thread is parked: nobody gets in before the close
+                   has returned *)
+                let w', o = step0 !w (AClose (name_id body)) in
+                w := w'; if o = OOk then "excluded" else show_out o
             | 'D' ->
                 let w', o = step0 !w ADestroy in
                 if o = OOk then contents := [];
